@@ -38,7 +38,7 @@ def budget(tier):
     return {'seeds': 6000, 'wall': 200, 'chunk': 50}
 
 
-REG_TYPES = ['Obj', 'SimObj', 'MyDict', 'SimDict', 'ROProp', 'SimList']
+REG_TYPES = ['Obj', 'SimObj', 'MyDict', 'SimDict', 'ROProp', 'SimList', 'dict', 'list', 'OrderedDict', 'Obj', 'MyList']
 REG_HANDLERS = {
     'get': ['getattr', 'getitem', 'tag_get'],
     'iterate': ['iter', 'tag_iter'],
@@ -77,6 +77,10 @@ def _tag_keys(o):
 
 def _reg_type(name):
     from .. import collab
+    from collections import OrderedDict
+    builtin = {'dict': dict, 'list': list, 'OrderedDict': OrderedDict}
+    if name in builtin:
+        return builtin[name]
     return getattr(collab, name)
 
 
@@ -254,6 +258,12 @@ def run_case(case, gen_rng=None):
                 viols.append({'clause': 'frame-condition', 'sig': 'frame-condition/' + _which(before, after),
                               'expected': 'target, spec and scope mapping unchanged (structure and identity)',
                               'observed': canon.snap_diff(before, after), 'op_index': len(trace) - 1})
+            if res[0] == 'ok':
+                al = _aliased_literal(res[1], B.arg_literals)
+                if al:
+                    viols.append({'clause': 'frame-condition', 'sig': 'frame-condition/result-is-the-specs-own-literal',
+                                  'expected': 'containers written in argument position are rebuilt for every call',
+                                  'observed': al, 'op_index': len(trace) - 1})
             exp = cold.outcome(i, j, path_star, regs, glommer)
             if exp != out:
                 viols.append({'clause': 'cold-equivalence', 'sig': 'cold-equivalence/' + opname,
@@ -389,6 +399,29 @@ def run_case(case, gen_rng=None):
     shape = simrun.jhash([case['pool'], [[o['op'], o.get('i'), o.get('j')] for o in case['ops']]])
     return {'violations': viols, 'digest': digest, 'stats': stats, 'shape': shape,
             'nontrivial': nontrivial, 'events': len(k.log), 'lines': k.ln}
+
+
+def _aliased_literal(v, arg_literals, depth=0, seen=None):
+    """does the result contain (by identity) a list/dict that the spec holds in argument position?"""
+    if not arg_literals or depth > 12:
+        return None
+    seen = set() if seen is None else seen
+    if id(v) in seen:
+        return None
+    seen.add(id(v))
+    if type(v) in (list, dict) and id(v) in arg_literals:
+        return arg_literals[id(v)]
+    if isinstance(v, dict):
+        items = list(dict.values(v))
+    elif isinstance(v, (list, tuple)):
+        items = list(v)
+    else:
+        return None
+    for x in items:
+        r = _aliased_literal(x, arg_literals, depth + 1, seen)
+        if r:
+            return r
+    return None
 
 
 def _norm_task(out, idx):
